@@ -389,34 +389,51 @@ def tab_plc(ctx):
     all_stores = [st for st in T.stmt_walk(psts) if st[0] in ("assign", "assignop")]
     ok = len(gb) == 1 and all(any(st is x for x in T.stmt_walk(gb[0][1])) for st in all_stores)
     cells = []
+    lin = []        # linear indices of stores written directly as entries[..]
+
+    def at(x):
+        if x[0] == "field" and is_var(x[1], "self") and x[2] in ("height", "width"):
+            return "H" if x[2] == "height" else "W"
+        return None
     if ok:
         for st in gb[0][1]:
             if st[0] == "assign" and st[2][0] == "const" and st[2][1].endswith("Bit::HIGH"):
                 bm = [x for x in T.sx_walk(st[1]) if x[0] == "call" and x[1].endswith("MatrixMap::bit_mut")]
                 if bm:
-                    def at(x):
-                        if x[0] == "field" and is_var(x[1], "self") and x[2] in ("height", "width"):
-                            return "H" if x[2] == "height" else "W"
-                        return None
                     cells.append((fz(T.poly(bm[0][2][1], at)), fz(T.poly(bm[0][2][2], at))))
+                else:
+                    tgt = st[1]
+                    ix = tgt[2] if tgt[0] == "index" else tgt[2][1] if tgt[0] == "call" and tgt[1].endswith(("::index_mut", "::index")) and len(tgt[2]) == 2 else None
+                    base = tgt[1] if tgt[0] == "index" else tgt[2][0] if ix is not None else None
+                    if ix is not None and any(isinstance(x, tuple) and x[0] == "field" and x[2] == "entries" for x in T.sx_walk(base)):
+                        lin.append(fz(T.poly(ix, at)))
     want = {(fz(P(h=1, c=-2)), fz(P(w=1, c=-2))), (fz(P(h=1, c=-1)), fz(P(w=1, c=-1)))}
-    obs.append(Ob(r, "padding", ok and set(cells) == want and len(cells) == 2, "the fixed corner pattern sets (h-2, w-2) and (h-1, w-1), only for sizes with padding modules", detail=len(cells)))
+    # the same two cells as row-major linear indices: w*(h-2)+(w-2) = wh - w - 2 and w*(h-1)+(w-1) = wh - 1
+    want_lin = {fz({("H", "W"): 1, ("W",): -1, (): -2}), fz({("H", "W"): 1, (): -1})}
+    okc = (set(cells) == want and len(cells) == 2 and not lin) or (set(lin) == want_lin and len(lin) == 2 and not cells)
+    obs.append(Ob(r, "padding", ok and okc, "the fixed corner pattern sets (h-2, w-2) and (h-1, w-1), only for sizes with padding modules", detail={"cells": len(cells), "linear": len(lin)}))
     bmf = "placement::MatrixMap::<M>::bit_mut"
-    need(bmf in f.thir, r, bmf)
-    e = T.sx(f.thir[bmf]["body"], {})
-    okb = False
-    idxs = [x for x in T.sx_walk(e) if x[0] == "call" and x[1].endswith("index_mut")]
-    if idxs:
-        def at2(x):
-            if x[0] == "field" and is_var(x[1], "self") and x[2] == "width":
-                return "W"
-            if is_var(x, "i"):
-                return "I"
-            if is_var(x, "j"):
-                return "J"
-            return None
-        okb = T.poly(idxs[0][2][1], at2) == {("I", "W"): 1, ("J",): 1}
-    obs.append(Ob(r, "bit_mut", okb, "bit_mut(i, j) addresses entries[width * i + j]"))
+    if bmf not in f.thir and lin and not cells:
+        # the helper was inlined into its only user: the row-major addressing is part of the padding obligation above
+        obs.append(Ob(r, "bit_mut", True, "bit_mut is inlined; the padding stores address entries[width * i + j] directly", info=True))
+    else:
+        need(bmf in f.thir, r, bmf)
+        e = T.sx(f.thir[bmf]["body"], {})
+        okb = False
+        idxs = [x for x in T.sx_walk(e) if x[0] == "call" and x[1].endswith("index_mut")]
+        if idxs:
+            bp = [p_["pat"]["name"].split("#")[0] for p_ in f.thir[bmf]["params"][1:3] if p_.get("pat", {}).get("k") == "Bind"]
+
+            def at2(x):
+                if x[0] == "field" and is_var(x[1], "self") and x[2] == "width":
+                    return "W"
+                if len(bp) == 2 and is_var(x, bp[0]):
+                    return "I"
+                if len(bp) == 2 and is_var(x, bp[1]):
+                    return "J"
+                return None
+            okb = T.poly(idxs[0][2][1], at2) == {("I", "W"): 1, ("J",): 1}
+        obs.append(Ob(r, "bit_mut", okb, "bit_mut(i, j) addresses entries[width * i + j]"))
     # --- has_padding set (shared table) and traversal dimensions
     for fn2 in ("placement::MatrixMap::<M>::traverse", "placement::MatrixMap::<M>::traverse_mut"):
         need(fn2 in f.thir, r, fn2)
@@ -464,7 +481,9 @@ def _bit_order(ctx, r):
             rev = bool(T.sx_calls(loops[0][2], "Iterator::rev"))
             body = loops[0][3]
             a = [s for s in body if s[0] == "assign"]
-            shape = len(a) == 1 and a[0][2][0] == "bin" and a[0][2][1] == "BitOr" and a[0][2][2][0] == "bin" and a[0][2][2][1] == "Shl" and a[0][2][2][3] == ("lit", 1) and a[0][2][3][0] == "cast"
+            def widened(x):
+                return x[0] == "cast" or (x[0] == "call" and x[1].split("::")[-1] in ("from", "into") and len(x[2]) == 1)
+            shape = len(a) == 1 and a[0][2][0] == "bin" and a[0][2][1] == "BitOr" and a[0][2][2][0] == "bin" and a[0][2][2][1] == "Shl" and a[0][2][2][3] == ("lit", 1) and widened(a[0][2][3])
             okr = (not rev) and shape
         elif not loops:
             # data[idx] = bits.iter().fold(data[idx], |codeword, bit| (codeword << 1) | (*bit as u8))
@@ -477,7 +496,7 @@ def _bit_order(ctx, r):
                 if slot_ok and cb and len(cb[0]) == 2:
                     acc, bit = [n.split("#")[0] for n in cb[0]]
                     e = cb[1]
-                    okr = e[0] == "bin" and e[1] == "BitOr" and e[2] == ("bin", "Shl", e[2][2], ("lit", 1)) and is_var(e[2][2], acc) and e[3][0] == "cast" and is_var(e[3][1], bit)
+                    okr = e[0] == "bin" and e[1] == "BitOr" and e[2] == ("bin", "Shl", e[2][2], ("lit", 1)) and is_var(e[2][2], acc) and (e[3][0] == "cast" and is_var(e[3][1], bit) or (e[3][0] == "call" and e[3][1].split("::")[-1] in ("from", "into") and is_var(e[3][2][0], bit)))
     obs.append(Ob(r, "bits:write", okw, "copy_from_codewords stores codeword idx most significant bit first (bit 1 of Annex F = first of the eight modules)"))
     obs.append(Ob(r, "bits:read", okr, "codewords() reads the eight modules most significant bit first (the inverse order of the writer)"))
     return obs
